@@ -63,7 +63,7 @@ ASSUMPTIONS = [
     'module defines none, those kinds are noted as unobserved (no floor on them)',
 ]
 FLOORS = {
-    'quick': {'keyword_rejections': 2000, 'alternative_after_rejection': 700, 'nonkeyword_same_as_undecorated': 4000,
+    'quick': {'grammars_with_isname_spelling': 100, 'keyword_rejections': 2000, 'alternative_after_rejection': 700, 'nonkeyword_same_as_undecorated': 4000,
               'ignorecase_directive': 1500, 'ignorecase_setting': 1500, 'gen_compared': 6000, 'name_events': 9000,
               'case_variant_rejected': 800, 'in_lookahead': 250, 'in_closure': 1000, 'uppercase_name_rule': 1500, 'reused_after_flip': 6000, 'based_name_rule': 1200,
               'gen_name_events': 9000,
@@ -157,6 +157,12 @@ def gen_case(rng, kws=None, idpats=IDENT_PATS):
         settings['ignorecase'] = True
     if rng.random() < 0.2:
         directives['nameguard'] = rng.choice(['True', 'False'])
+    srng = random.Random(h64('C11', 'spelling', [r.name for r in rules], list(kws)))
+    if srng.random() < 0.15:
+        # the other accepted spelling of the decorator (@isname, exported as tatsu.isname) marks the same kind of rule
+        rules = [L.Rule(r.name, r.body, tuple('isname' if d == 'name' else d for d in r.decorators), r.params, r.kwparams, r.base)
+                 for r in rules]
+        feats.add('isname_spelling')
     g = L.Grammar(rules, directives, kws)
     return g, settings, mode, feats
 
@@ -348,6 +354,8 @@ def check(acc, g, settings, mode, feats, texts, origin, alt_off=None, alt_kinds=
     """alt_off: rotation offset of the input kinds given to every other text; alt_kinds: {text index: kind} (replay)"""
     ignorecase = mode != 'off'
     eff = dict(settings)
+    if 'isname_spelling' in feats:
+        acc.count('grammars_with_isname_spelling')
     case = D.Case(g, 'start', settings=eff, parse_settings=settings)
     if case.model is None:
         acc.violation('exc:build:' + case.build_error[0], f'building failed: {case.build_error} {L.grammar_text(g)!r}',
@@ -365,7 +373,7 @@ def check(acc, g, settings, mode, feats, texts, origin, alt_off=None, alt_kinds=
     if gen is not None and not text_classes:
         acc.note('the generated module defines no text class: the gen:/gen_set: input kinds are unobserved')
     kinds = kinds_of(text_classes)
-    name_rules = {r.name for r in g.rules if 'name' in r.decorators}
+    name_rules = {r.name for r in g.rules if 'name' in r.decorators or 'isname' in r.decorators}
     reused = [None]
     if 'uppercase_name_rule' in feats:
         acc.count('uppercase_name_rule', len(texts))
@@ -558,7 +566,7 @@ def check_sweep(acc, g, settings, mode, feats, layout, texts, origin, kind_off=0
         acc.violation('gen-build:' + type(e).__name__, f'code generation failed: {e} {sweep_text(g, layout)!r}', w0)
         gen = None
     kinds = ['str'] + kinds_of(text_classes)
-    name_rules = {r.name for r in g.rules if 'name' in r.decorators}
+    name_rules = {r.name for r in g.rules if 'name' in r.decorators or 'isname' in r.decorators}
     n = len(g.keywords)
     acc.count('sweep_cases')
     acc.count('sweep_decl:' + layout.split(':')[0])
